@@ -47,10 +47,7 @@ import (
 	vu "golang.org/x/net/internal/verifutil"
 )
 
-const (
-	c27SigPad = "padded-initial-exceeds-credit"
-	c27Limit  = 3
-)
+const c27Limit = 3
 
 // ---------------------------------------------------------------- counter tie
 
@@ -237,7 +234,7 @@ type c27Case struct {
 	connDCID  []byte
 
 	// oracle shadow
-	recvd, sent, over map[int]int
+	recvd, sent map[int]int
 	hs                map[int]bool
 	shadow            int
 	haveConn          bool
@@ -701,13 +698,7 @@ func (x *c27Case) oracle(evs []string) {
 					pre := x.shadow
 					if n > pre {
 						// the send path did not respect size <= maxSendSize(): the clamp hides the excess
-						if pre >= minPacketSize && n == paddedInitialDatagramSize && 0 < k && k <= pre {
-							x.over[a] += n - pre
-							x.o.Stat("wire:padded-overshoot")
-							x.o.Fail(c27SigPad, fmt.Sprintf("server padded %d bytes of packets to a %d-byte datagram with only %d bytes of anti-amplification credit (total sent %d, 3*received %d)", k, n, pre, x.sent[a], c27Limit*x.recvd[a]))
-						} else {
-							x.o.Fail("", fmt.Sprintf("server sent %d bytes (%d before padding) with only %d bytes of credit", n, k, pre))
-						}
+						x.o.Fail("", fmt.Sprintf("server sent a %d-byte datagram (%d bytes before padding) with only %d bytes of anti-amplification credit (total sent %d, 3*received %d)", n, k, pre, x.sent[a], c27Limit*x.recvd[a]))
 					}
 					x.shadow = max(0, pre-n)
 					if got := f[4]; got != c27ShowCredit(x.shadow) {
@@ -715,8 +706,8 @@ func (x *c27Case) oracle(evs []string) {
 					}
 				}
 			}
-			if !x.valid[a] && x.sent[a] > c27Limit*x.recvd[a]+x.over[a] {
-				x.o.Fail("", fmt.Sprintf("address %d not validated: sent %d > 3*received %d (+%d known overshoot)", a, x.sent[a], c27Limit*x.recvd[a], x.over[a]))
+			if !x.valid[a] && x.sent[a] > c27Limit*x.recvd[a] {
+				x.o.Fail("", fmt.Sprintf("address %d not validated: sent %d > 3*received %d", a, x.sent[a], c27Limit*x.recvd[a]))
 			}
 		case "validated":
 			if !x.hs[x.connAddr] {
@@ -925,7 +916,7 @@ func c27WireExec(t *testing.T) func(ops []string, o *vu.Out) {
 				}
 			}()
 			synctest.Test(t, func(t *testing.T) {
-				x := &c27Case{t: t, o: o, recvd: map[int]int{}, sent: map[int]int{}, over: map[int]int{},
+				x := &c27Case{t: t, o: o, recvd: map[int]int{}, sent: map[int]int{},
 					hs: map[int]bool{}, valid: map[int]bool{}}
 				x.run(clean, &abandoned)
 				emitted.Store(int64(len(clean)))
